@@ -12,66 +12,7 @@ func runC12(c *Ctx) {
 	scannerT := c.typeObj("postscript", "scanner")
 	ia := c.interp()
 
-	// ---- every direct Read on an io.Reader: count accounted before the error is looked at
-	nReads := 0
-	for _, f := range c.modFuncs {
-		fname := c.fname(f)
-		eachInstr(f, func(ins ssa.Instruction) {
-			call, ok := ins.(*ssa.Call)
-			if !ok || !call.Common().IsInvoke() || call.Common().Method.Name() != "Read" {
-				return
-			}
-			if m := call.Common().Method; m.Pkg() == nil || m.Pkg().Path() != "io" {
-				return
-			}
-			nReads++
-			var n, e ssa.Value
-			direct := false
-			for _, r := range *call.Referrers() {
-				switch r := r.(type) {
-				case *ssa.Extract:
-					if r.Index == 0 {
-						n = r
-					} else {
-						e = r
-					}
-				case *ssa.Return:
-					direct = true
-				}
-			}
-			if direct {
-				c.ok("DLV-READCOUNT", fname, "Read result passed on unchanged", call.Pos(), "return r.Read(b)", "")
-				return
-			}
-			if n == nil || len(*n.Referrers()) == 0 {
-				c.fail("DLV-READCOUNT", fname, "byte count of Read used", call.Pos(), "the number of bytes returned by Read is ignored: a short read loses or invents data")
-				return
-			}
-			// at least one accounting use of n must not be control dependent on the error test
-			bad := ""
-			free := 0
-			for _, r := range *n.Referrers() {
-				ri, ok := r.(ssa.Instruction)
-				if !ok {
-					continue
-				}
-				dependent := false
-				for _, cd := range domConds(ri.Block()) {
-					if m, ok := asCmp(cd); ok && e != nil && (m.x == e || m.y == e) {
-						dependent = true
-					}
-				}
-				if !dependent {
-					free++
-				}
-			}
-			if free == 0 {
-				bad = "the byte count is only used on paths that have already tested the error: bytes delivered together with an error (e.g. EOF) are lost"
-			}
-			// and some use of n precedes (is not dominated by) the error test
-			c.check(bad == "", "DLV-READCOUNT", fname, "byte count of Read accounted before the error is acted on", call.Pos(), "n is used unconditionally", bad)
-		})
-	}
+	c.readCountRule("DLV-READCOUNT", func(*ssa.Function) bool { return true })
 	c.floor("DLV-READCOUNT", 3)
 
 	// ---- refill: no error reported while data was delivered
@@ -323,4 +264,73 @@ func runC12(c *Ctx) {
 		}
 	})
 	c.check(usesPeek, "DLV-LOOKAHEAD", c.fname(next), "Next serves the look-ahead buffer first", next.Pos(), "reads scanner.peek", "Next no longer consults the look-ahead buffer: bytes already peeked would be skipped")
+}
+
+// readCountRule: at every direct Read on an io.Reader the byte count is accounted before the
+// error is acted on (a Read may deliver data together with an error).
+func (c *Ctx) readCountRule(rule string, filter func(*ssa.Function) bool) {
+	// ---- every direct Read on an io.Reader: count accounted before the error is looked at
+	nReads := 0
+	for _, f := range c.modFuncs {
+		if !filter(f) {
+			continue
+		}
+		fname := c.fname(f)
+		eachInstr(f, func(ins ssa.Instruction) {
+			call, ok := ins.(*ssa.Call)
+			if !ok || !call.Common().IsInvoke() || call.Common().Method.Name() != "Read" {
+				return
+			}
+			if m := call.Common().Method; m.Pkg() == nil || m.Pkg().Path() != "io" {
+				return
+			}
+			nReads++
+			var n, e ssa.Value
+			direct := false
+			for _, r := range *call.Referrers() {
+				switch r := r.(type) {
+				case *ssa.Extract:
+					if r.Index == 0 {
+						n = r
+					} else {
+						e = r
+					}
+				case *ssa.Return:
+					direct = true
+				}
+			}
+			if direct {
+				c.ok(rule, fname, "Read result passed on unchanged", call.Pos(), "return r.Read(b)", "")
+				return
+			}
+			if n == nil || len(*n.Referrers()) == 0 {
+				c.fail(rule, fname, "byte count of Read used", call.Pos(), "the number of bytes returned by Read is ignored: a short read loses or invents data")
+				return
+			}
+			// at least one accounting use of n must not be control dependent on the error test
+			bad := ""
+			free := 0
+			for _, r := range *n.Referrers() {
+				ri, ok := r.(ssa.Instruction)
+				if !ok {
+					continue
+				}
+				dependent := false
+				for _, cd := range domConds(ri.Block()) {
+					if m, ok := asCmp(cd); ok && e != nil && (m.x == e || m.y == e) {
+						dependent = true
+					}
+				}
+				if !dependent {
+					free++
+				}
+			}
+			if free == 0 {
+				bad = "the byte count is only used on paths that have already tested the error: bytes delivered together with an error (e.g. EOF) are lost"
+			}
+			// and some use of n precedes (is not dominated by) the error test
+			c.check(bad == "", rule, fname, "byte count of Read accounted before the error is acted on", call.Pos(), "n is used unconditionally", bad)
+		})
+	}
+	_ = nReads
 }
